@@ -11,6 +11,7 @@ package service_account
 //@   ensures floor: total <= u128(aF) ==> result == 0
 //@   ensures exact: total < 18446744073709551616 && total > u128(aF) ==> u128(result) == total - u128(aF)
 //@   ensures exact_wide: total >= 18446744073709551616 && total > u128(aF) && total - u128(aF) < 18446744073709551616 ==> u128(result) == total - u128(aF)
+//@   ensures unreachable: total > u128(aF) && total - u128(aF) >= 18446744073709551616 ==> result == 18446744073709551615
 
 //@ func CalcLookupItemfootprint
 //@   props C09
